@@ -75,13 +75,18 @@ where
                 let mut v_left = self.eval_const(left)?;
                 let mut v_right = self.eval_const(right)?;
                 if matches!(*op, Operator::And | Operator::Or) {
-                    // at runtime, the operands of AND / OR are cast to integer first
-                    v_left = v_left
-                        .cast(TypeQualifier::PercentInteger)
-                        .map_err(|e| e.at(left))?;
-                    v_right = v_right
-                        .cast(TypeQualifier::PercentInteger)
-                        .map_err(|e| e.at(right))?;
+                    // at runtime, the operands of AND / OR are cast to integer first,
+                    // or to long if one of them is wider than integer
+                    let q = if matches!(
+                        (&v_left, &v_right),
+                        (Variant::VInteger(_), Variant::VInteger(_))
+                    ) {
+                        TypeQualifier::PercentInteger
+                    } else {
+                        TypeQualifier::AmpersandLong
+                    };
+                    v_left = v_left.cast(q).map_err(|e| e.at(left))?;
+                    v_right = v_right.cast(q).map_err(|e| e.at(right))?;
                 }
                 (match *op {
                     Operator::Less => v_left
